@@ -325,6 +325,9 @@ class TapeProp(object):
             res.violate("CLI-LIST-FAILED", "file_util --list status=%r exception=%r stdout=%r" % (r.status, r.exception, r.stdout[:100]), k)
             return
         got = parse_listing(r.stdout)
+        if got is None:
+            res.stats["cli_listing_form_not_recognised"] += 1
+            return
         model = st["model"]
         if len(got) != len(model):
             res.violate("CLI-LIST-COUNT", "file_util --list shows %d files, model has %d" % (len(got), len(model)), k)
